@@ -39,6 +39,11 @@ def wrap(path, T):
 def make_loop(shape, path, via_apply=False):
     """returns (definitions, call template with {N}); result must be N"""
     def call(f, *args):
+        if via_apply == "apply-apply":
+            # apply handed to apply, and apply arriving through a variable
+            return "(apply apply %s (list (list %s)))" % (f, " ".join(args))
+        if via_apply == "apply-var":
+            return "((lambda (call) (call call (list %s (list %s)))) apply)" % (f, " ".join(args))
         if via_apply:
             return "(apply %s (list %s))" % (f, " ".join(args))
         return "(%s %s)" % (f, " ".join(args))
@@ -79,7 +84,7 @@ SHAPES = ["self", "mutual2", "mutual3", "higher-order", "variadic", "closure-ret
 
 def judge(ctx, case, rec, leg):
     shape, path, via_apply, N = case["shape"], case["path"], case["via_apply"], case["N"]
-    has_apply = via_apply or ("apply" in path)
+    has_apply = bool(via_apply) or ("apply" in path)
     base = {"shape": shape, "ctx_path": "/".join(path) or "-", "via_apply": via_apply, "has_apply": has_apply, "N": N, "leg": leg}
     key = "%s|%s|%s" % (shape, "/".join(path), via_apply)
     if rec is None or "steps" not in rec:
@@ -146,7 +151,7 @@ def run(tier, seed):
     cases = []
     for path in paths:
         for shape in SHAPES:
-            for via_apply in ((False, True) if len(path) <= 1 else (False,)):
+            for via_apply in ((False, True, "apply-apply", "apply-var") if len(path) == 0 else ((False, True) if len(path) <= 1 else (False,))):
                 for N in (40, bigN):
                     cases.append({"shape": shape, "path": list(path), "via_apply": via_apply, "N": N})
     if tier == "thorough":
